@@ -184,6 +184,21 @@ CLAIMED = {
          "Student's t cdf is abstract in the theorems (scipy computes it); rank-sum tests are supporting tests only; get_ci / errorbars not "
          'modelled.',
          'DESIGN.md section 7, C06'),
+    'C04': ('Coq proofs: restriction of predictions to the drawn conditions, bootstrap multiplicity inside folds, covariance across '
+         'resamples (symmetric, order independent, fixed-evaluation form), repetition correction, dof + in-Coq correspondence of every '
+         'stored evaluation of eval_fixed / eval_bootstrap* / crossval / _internal_cv and of the variance assembly of bootstrap_crossval / '
+         'eval_dual_bootstrap_random against recorded resamples',
+         'Theorems: sub_vec depends only on pairs of drawn conditions and gives no value for a condition paired with itself; '
+         'concat_sampling keeps exactly the fold conditions with the multiplicity of the draw; cov1 symmetric, non-negative diagonal, '
+         'invariant under permuting the resamples; n/(n-1) cov0/n = cov1/n; cv_correct fixed point and bound; dof(both) <= dof(single). '
+         'Correspondence (fixed-point Q, in Coq): each evaluation = mean similarity of the model prediction (fixed / weighted / select at the '
+         'supplied or fold-fitted parameters) restricted to the recorded draw with the recorded resample, which itself is re-derived from the '
+         'data; NaN marking of unusable resamples / folds; per-resample noise ceilings (boot_noise_ceiling model of C07); covariance over usable '
+         'resamples incl. noise-ceiling rows; repetition correction; dof. Spec oracles: fitter arguments = the fold training set, inner '
+         'results stored in order, same-seed reruns identical.',
+         'resamples are observed through harness-side wrappers (not assumed); eval_dual_bootstrap (three covariance stack) is covered '
+         'through _internal_cv and reproducibility only.',
+         'DESIGN.md section 7, C04'),
 }
 NA_REASON = 'check not built yet in this round (work in progress; see DESIGN.md section 7)'
 
